@@ -274,9 +274,43 @@ func ZZC10Two() {
 	v.Assert(x.LessThanOrEqual(y) == (want <= 0), "C10/lte")
 }
 
+// ZZC10LongExp: an exponent may be written with leading zeros, as many as one likes: the numeral
+// D[.D]e[+|-]0...0E (L zeros, L around the lengths at which 32- and 64-bit digit counters end) is
+// the number D[.D]e[+|-]E.
+func ZZC10LongExp() {
+	d := v.Byte()
+	v.Assume('0' <= d && d <= '9')
+	mant := []byte{d}
+	if v.Choose(0, 1) == 1 {
+		f := v.Byte()
+		v.Assume('0' <= f && f <= '9')
+		mant = append(mant, '.', f)
+	}
+	sign := [][]byte{nil, []byte("+"), []byte("-")}[v.Choose(0, 2)]
+	e := byte('0' + v.Choose(0, 3))
+	L := []int{1, 2, 8, 9, 10, 18, 19, 20, 21, 25, 40}[v.Choose(0, 10)]
+	short := append(append(append(append([]byte{}, mant...), 'e'), sign...), e)
+	long := append(append(append([]byte{}, mant...), 'E'), sign...)
+	for i := 0; i < L; i++ {
+		long = append(long, '0')
+	}
+	long = append(long, e)
+	v.Observe("numeral", long)
+	a, errA := NewNumber(short)
+	b, errB := NewNumber(long)
+	v.Assert((errA == nil) == (errB == nil), "C10/leading-zeros-in-exponent-change-the-verdict")
+	if errA != nil || errB != nil {
+		return
+	}
+	v.Assert(a.Cmp(b) == 0 && b.Cmp(a) == 0, "C10/leading-zeros-in-exponent-change-the-value")
+	v.Assert(a.LengthOfFractionalPart() == b.LengthOfFractionalPart(), "C10/leading-zeros-in-exponent-change-the-value")
+	v.Reach("C10/long-exponent")
+}
+
 var ZZHarnesses = map[string]func(){
-	"ZZC10One": ZZC10One,
-	"ZZC10Two": ZZC10Two,
+	"ZZC10LongExp": ZZC10LongExp,
+	"ZZC10One":     ZZC10One,
+	"ZZC10Two":     ZZC10Two,
 }
 
 // ZZIsNumeral: a is an RFC 8259 numeral (exponent magnitude at most maxexp) - for harnesses of other packages.
